@@ -196,6 +196,61 @@ ERROR_MAP = {
 }
 
 
+def ob_flag_exact(run, oid):
+    """both ingest paths flag the leader for exactly the two verdicts that prove misbehaviour"""
+    prog = run.program("lib")
+    o = run.ob(oid, "add_shred_from_dissemination / add_shred_from_repair call flag_leader_misbehavior exactly for Equivocation and InvalidShred",
+               "malformed content revealed through repair is as much the leader's as content revealed through dissemination: if InvalidShred is not flagged there, no invalid block is "
+               "announced and a later block of the same leader for that slot is accepted from dissemination", floor=2)
+    for fn in ("add_shred_from_dissemination", "add_shred_from_repair"):
+        n = 0
+        for fb in prog.family("<" + A + "consensus::blockstore::BlockstoreImpl as " + A + "consensus::blockstore::Blockstore>::" + fn):
+            for c in fb.calls():
+                if c.name.endswith("BlockstoreImpl::flag_leader_misbehavior") or c.name.endswith("Blockstore>::flag_leader_misbehavior"):
+                    names = None
+                    for a in G.guard_atoms(fb, c.bb, prog):
+                        if a[0] == "variant" and a[1][1] <= {"Duplicate", "Equivocation", "InvalidShred", "TypeMismatch"}:
+                            names = set(a[1][1]) if names is None else names & a[1][1]
+                    n += 1
+                    o.check(names == {"Equivocation", "InvalidShred"} if n == 1 else names is not None, "Blockstore::%s|flag|both-verdicts" % fn, "the leader is flagged on Equivocation and on InvalidShred", c.span,
+                            {"flagged_on": sorted(names) if names else None})
+        if n == 0:
+            o.fail("Blockstore::%s|flag|missing" % fn, "no call of flag_leader_misbehavior in %s" % fn)
+        elif n > 1:
+            # several call sites (one per arm): together they must cover both verdicts
+            cov = set()
+            for fb in prog.family("<" + A + "consensus::blockstore::BlockstoreImpl as " + A + "consensus::blockstore::Blockstore>::" + fn):
+                for c in fb.calls():
+                    if c.name.endswith("flag_leader_misbehavior"):
+                        for a in G.guard_atoms(fb, c.bb, prog):
+                            if a[0] == "variant" and a[1][1] <= {"Duplicate", "Equivocation", "InvalidShred", "TypeMismatch"}:
+                                cov |= set(a[1][1])
+            o.check(cov == {"Equivocation", "InvalidShred"}, "Blockstore::%s|flag|covered" % fn, "the call sites together cover exactly Equivocation and InvalidShred", "", {"covered": sorted(cov)})
+    return o
+
+
+def ob_altered_shred_dropped_first(run, oid):
+    """TypeMismatch is the one verdict an outsider can provoke with a correct leader's shred: it must not leave a trace"""
+    prog = run.program("lib")
+    o = run.ob(oid, "BlockData::add_shred returns TypeMismatch before it touches any field of the block data",
+               "the data/coding tag is not signed: anyone can flip it on a genuine shred. If such a shred is refused only after it seeded the commitment cache (or any other field), the "
+               "'first shred' / 'once' bookkeeping of the slot is off by one from then on", floor=1)
+    b = prog.body(BD + "::add_shred")
+    if b is None:
+        o.missing("BlockData::add_shred")
+        return o
+    errs = [(bb, sp) for (bb, rv, sp, dst) in b.aggregates() if rv.get("ak") == "adt" and rv.get("variant") == "TypeMismatch"]
+    if not errs:
+        o.missing("AddShredError::TypeMismatch in BlockData::add_shred")
+        return o
+    muts = set(bb for (bb, ow, name, rv, sp, dst) in b.field_writes() if ow.endswith("BlockData"))
+    muts |= set(bb for (bb, ow, name, sp, l, pl) in b.mut_borrows_of_fields() if ow.endswith("BlockData"))
+    for (bb, sp) in errs:
+        before = sorted(m for m in muts if m != bb and b.can_reach(m, bb))
+        o.check(not before, "add_shred|TypeMismatch|before-any-mutation", "no write to / mutable borrow of a BlockData field can precede the TypeMismatch return", sp, {"mutating blocks before": before[:5]})
+    return o
+
+
 def ob_error_mapping(run, oid):
     """which decoder failure becomes which DeshredError: only 'not enough shreds yet' may become the error the blockstore waits on"""
     from engine import paths as P_
@@ -231,6 +286,12 @@ def ob_error_mapping(run, oid):
 
 def check(run):
     ob_error_mapping(run, "O13.11")
+    ob_flag_exact(run, "O13.12")
+    ob_altered_shred_dropped_first(run, "O13.13")
+    # "for every block a correct leader disseminates ... reconstructs exactly that block": the decoder of a slice's transactions admits every count a slice can encode
+    from . import C19 as _C19d
+    with run.restricted(lambda oid: oid == "O13.14.1"):
+        _C19d.check(run, prefix="O13.14")
     from . import detectors as _DL
     _DL.ob_loop_exits(run, "O13.9", ['consensus::blockstore'], 'every slice of a block is reconstructed and checked: a loop that stops early assembles a partial block')
     # "can afterwards serve every shred, slice root and proof of it": the lookup behind all getters
